@@ -64,6 +64,10 @@ def run(e: Engine, rep: Report):
     rep.rule('V4', 'peer-supplied address text is validated by the strict '
              'parser only (inet_pton); lenient parsers (inet_aton, name '
              'resolution) are not used in the module')
+    rep.rule('V5', 'v2 address provenance: every returned address element '
+             'is a struct field passed through inet_ntop / removal of '
+             'trailing NUL padding only (no operation that can drop or '
+             'change bytes inside the field)')
     rep.tables.add('c18.DECODER_RAISES')
     rep.tables.add('c18.LENIENT_PARSERS')
     rep.not_decided += ['that the parser returns exactly the encoded '
@@ -75,6 +79,7 @@ def run(e: Engine, rep: Report):
     v2(e, rep)
     v3(e, rep)
     v4(e, rep)
+    v5(e, rep)
     rep.floor('V1', 4, 'recv_into sites')
 
 
@@ -661,3 +666,120 @@ def v4(e: Engine, rep: Report):
     else:
         rep.ok('V4', MOD, 'strict address parser in use',
                reason='%d inet_pton site(s), no lenient parser' % strict)
+
+
+def v5(e: Engine, rep: Report):
+    """The addresses a parser returns are the fields of the header: every
+    element of a returned address comes from a field cut out by a struct
+    format (or from inet_pton's validation of the text) through nothing but
+    the canonical presentation (inet_ntop) and the removal of trailing NUL
+    padding - no operation that can drop or change bytes inside the field."""
+    ctx = e.method_ctx(V2, '__parse_pp_addresses')
+    f = ctx.func
+    fn = f.node
+    where = f.qname
+    rep.functions.add(where)
+    m = e.p.modules.get(MOD)
+    unpacked = set()
+    for a in walk_own(fn):
+        if isinstance(a, ast.Assign) and isinstance(a.value, ast.Call) and \
+                isinstance(a.value.func, ast.Attribute) and \
+                a.value.func.attr == 'unpack':
+            for t in a.targets:
+                for x in ast.walk(t):
+                    if isinstance(x, ast.Name):
+                        unpacked.add(x.id)
+
+    def verdict(x, fnode, names, depth=0):
+        """None = fine; str = what is wrong; 'UNKNOWN:<why>' = cannot read"""
+        if depth > 6:
+            return 'UNKNOWN:nesting'
+        if isinstance(x, ast.Tuple):
+            for el in x.elts:
+                v = verdict(el, fnode, names, depth + 1)
+                if v:
+                    return v
+            return None
+        if isinstance(x, ast.Constant):
+            return None
+        if isinstance(x, ast.Name):
+            if x.id in names:
+                return None
+            if m is not None and x.id in m.globals:
+                return None
+            defs = [a.value for a in walk_own(fnode)
+                    if isinstance(a, ast.Assign) and any(
+                        isinstance(t, ast.Name) and t.id == x.id
+                        for t in a.targets)]
+            if not defs:
+                return 'UNKNOWN:`%s` has no definition here' % x.id
+            for d in defs:
+                v = verdict(d, fnode, names, depth + 1)
+                if v:
+                    return v
+            return None
+        if isinstance(x, ast.Call):
+            fx = x.func
+            nm = fx.attr if isinstance(fx, ast.Attribute) else (
+                fx.id if isinstance(fx, ast.Name) else None)
+            if nm == 'inet_ntop' and len(x.args) == 2:
+                return verdict(x.args[1], fnode, names, depth + 1)
+            if nm == 'rstrip' and isinstance(fx, ast.Attribute) and \
+                    len(x.args) == 1 and \
+                    isinstance(x.args[0], ast.Constant) and \
+                    x.args[0].value == b'\x00':
+                return verdict(fx.value, fnode, names, depth + 1)
+            if nm in ('bytes', 'str') and len(x.args) == 1:
+                return verdict(x.args[0], fnode, names, depth + 1)
+            # a helper of the class with one return: its body decides
+            tgt = None
+            if isinstance(fx, ast.Attribute) and \
+                    isinstance(fx.value, ast.Name) and \
+                    fx.value.id in ('cls', 'self') and f.cls is not None:
+                tgt = e.p.lookup_method(f.cls.qname, fx.attr)
+            elif isinstance(fx, ast.Name) and m is not None:
+                tgt = e.p.functions.get(MOD + '.' + fx.id)
+            if tgt is not None:
+                rets = [r for r in walk_own(tgt.node)
+                        if isinstance(r, ast.Return)]
+                prm = [p for p in tgt.params if p not in ('cls', 'self')]
+                if len(rets) == 1 and rets[0].value is not None and \
+                        len(prm) == len(x.args):
+                    for a0 in x.args:
+                        v = verdict(a0, fnode, names, depth + 1)
+                        if v:
+                            return v
+                    return verdict(rets[0].value, tgt.node, set(prm),
+                                   depth + 1)
+                return 'UNKNOWN:helper `%s`' % tgt.name
+            return 'passes the field through `%s`' % ' '.join(
+                ast.unparse(x).split())[:60]
+        if isinstance(x, ast.Subscript):
+            return 'takes `%s` of the field' % ' '.join(
+                ast.unparse(x).split())[:60]
+        if isinstance(x, ast.IfExp):
+            return verdict(x.body, fnode, names, depth + 1) or \
+                verdict(x.orelse, fnode, names, depth + 1)
+        return 'UNKNOWN:`%s`' % ' '.join(ast.unparse(x).split())[:60]
+    nret = 0
+    for r in walk_own(fn):
+        if not isinstance(r, ast.Return) or r.value is None:
+            continue
+        nret += 1
+        rep.evaluations += 1
+        v = verdict(r.value, fn, unpacked)
+        if v and v.startswith('UNKNOWN:'):
+            rep.error('cannot read the provenance of the addresses returned '
+                      'at %s: %s' % (f.loc(r), v[8:]))
+            continue
+        rep.check(v is None, 'V5', where,
+                  'returned addresses are the header fields: `%s`'
+                  % ' '.join(ast.unparse(r.value).split())[:60],
+                  'an address handed on %s: bytes inside the encoded field '
+                  'can be dropped or changed, the parser does not return '
+                  'exactly the encoded address' % (v or ''), loc=f.loc(r),
+                  reason='struct fields through inet_ntop / trailing-NUL '
+                  'removal only')
+    if nret < 3:
+        rep.error('anchor vanished: returns of __parse_pp_addresses '
+                  '(%d < 3)' % nret)
